@@ -19,8 +19,30 @@ def B(*a):
     return [x if isinstance(x, bytes) else str(x).encode() for x in a]
 
 
-def directed():
+def txn_schedules():
+    """Transactions and scripts that push to a key somebody is blocked on: the waiter is served AFTER the whole EXEC /
+    script (C07, C12: one indivisible step), with the element that is then at the proper end of the list."""
     S = []
+    S.append(('push-inside-exec-with-waiter', [('open', 1), ('open', 2), ('send', 1, B('BLPOP', 'q', 0)), ('sync',), ('call', 2, B('MULTI')), ('call', 2, B('RPUSH', 'q', 'x')),
+                                               ('call', 2, B('LLEN', 'q')), ('call', 2, B('LRANGE', 'q', 0, -1)), ('call', 2, B('RPUSH', 'q', 'y')), ('call', 2, B('LLEN', 'q')),
+                                               ('call', 2, B('EXEC')), ('sync',), ('pump', 1, 500), ('call', 2, B('LRANGE', 'q', 0, -1))]))
+    S.append(('push-inside-exec-pipelined-two-waiters', [('open', 1), ('open', 2), ('open', 3), ('send', 1, B('BRPOP', 'q', 'r', 0)), ('sync',), ('send', 3, B('BLPOP', 'q', 0)), ('sync',),
+                                                         ('send', 2, B('MULTI'), B('LPUSH', 'q', 'a', 'b'), B('LRANGE', 'q', 0, -1), B('LPUSH', 'r', 'c'), B('LLEN', 'r'), B('LPOP', 'q'),
+                                                          B('LLEN', 'q'), B('EXEC')), ('pump', 2, 800), ('sync',), ('pump', 1, 500), ('pump', 3, 500),
+                                                         ('call', 2, B('LRANGE', 'q', 0, -1)), ('call', 2, B('LRANGE', 'r', 0, -1))]))
+    S.append(('push-and-pop-all-inside-exec', [('open', 1), ('open', 2), ('send', 1, B('BLPOP', 'q', '0.4')), ('sync',), ('call', 2, B('MULTI')), ('call', 2, B('RPUSH', 'q', 'x')),
+                                               ('call', 2, B('LPOP', 'q')), ('call', 2, B('LLEN', 'q')), ('call', 2, B('EXEC')), ('sync',), ('pump', 1, 1500),
+                                               ('call', 2, B('LLEN', 'q'))]))
+    import luadsl as L
+    prog = [L.call([L.arg_lit(b'RPUSH'), L.arg_key(1), L.arg_lit(b'x')]), L.call([L.arg_lit(b'RPUSH'), L.arg_key(1), L.arg_lit(b'y')]),
+            L.call([L.arg_lit(b'LRANGE'), L.arg_key(1), L.arg_lit(b'0'), L.arg_lit(b'-1')], ret=1)]
+    S.append(('push-inside-script-with-waiter', [('open', 1), ('open', 2), ('send', 1, B('BLPOP', 'q', 0)), ('sync',), ('eval', 2, prog, [b'q'], []), ('sync',), ('pump', 1, 500),
+                                                 ('call', 2, B('LRANGE', 'q', 0, -1))]))
+    return S
+
+
+def directed():
+    S = txn_schedules()
     S.append(('basic', [('open', 1), ('open', 2), ('send', 1, B('BLPOP', 'q', 0)), ('sync',), ('call', 2, B('RPUSH', 'q', 'a')), ('sync',), ('pump', 1, 500),
                         ('call', 2, B('LRANGE', 'q', 0, -1))]))
     S.append(('multikey-leftover', [('open', 1), ('open', 2), ('send', 1, B('BLPOP', 'a', 'b', 0)), ('sync',), ('call', 2, B('RPUSH', 'a', 'x')), ('sync',),
@@ -71,18 +93,41 @@ def directed():
                                               ('send', 3, B('BLPOP', 'r', 'q', '0.2')), ('sync',), ('send', 4, B('BLPOP', 'r', '0.9')), ('sync',),
                                               ('call', 2, B('SLEEP', 450)), ('pump', 1, 800), ('pump', 3, 800), ('sync',),
                                               ('call', 2, B('RPUSH', 'r', 'y')), ('sync',), ('pump', 4, 900), ('call', 2, B('LRANGE', 'r', 0, -1))]))
+    # a client served through ONE of several keys blocks again on a different key: a push to a key of the first call must
+    # neither reach it nor be lost, and the deadline of the first call must not end the second
+    for op, push in (('BLPOP', 'RPUSH'), ('BRPOP', 'LPUSH')):
+        S.append(('served-multikey-then-reblock-%s' % op, [('open', 1), ('open', 2), ('send', 1, B(op, 'k1', 'k2', 0)), ('sync',), ('call', 2, B(push, 'k1', 'a')), ('sync',),
+                                                           ('pump', 1, 500), ('send', 1, B(op, 'k3', 0)), ('sync',), ('call', 2, B(push, 'k2', 'b')), ('sync',), ('pump', 1, 200),
+                                                           ('call', 2, B('LRANGE', 'k2', 0, -1)), ('call', 2, B(push, 'k3', 'c')), ('sync',), ('pump', 1, 500),
+                                                           ('call', 2, B('LRANGE', 'k2', 0, -1)), ('call', 2, B('LRANGE', 'k3', 0, -1))]))
+    S.append(('served-multikey-old-deadline', [('open', 1), ('open', 2), ('send', 1, B('BLPOP', 'k1', 'k2', '0.3')), ('sync',), ('call', 2, B('RPUSH', 'k2', 'a')), ('sync',),
+                                               ('pump', 1, 500), ('send', 1, B('BLPOP', 'k3', 'k1', 0)), ('sync',), ('sleep', 600), ('pump', 1, 50),
+                                               ('call', 2, B('RPUSH', 'k1', 'late')), ('sync',), ('pump', 1, 500), ('call', 2, B('LRANGE', 'k1', 0, -1))]))
+    S.append(('timed-out-multikey-then-reblock', [('open', 1), ('open', 2), ('send', 1, B('BLPOP', 'k1', 'k2', '0.1')), ('pump', 1, 1500), ('send', 1, B('BRPOP', 'k3', 0)), ('sync',),
+                                                  ('call', 2, B('RPUSH', 'k2', 'b')), ('sync',), ('call', 2, B('RPUSH', 'k1', 'a')), ('sync',), ('pump', 1, 200),
+                                                  ('call', 2, B('LRANGE', 'k1', 0, -1)), ('call', 2, B('LRANGE', 'k2', 0, -1)), ('call', 2, B('RPUSH', 'k3', 'c')), ('sync',), ('pump', 1, 500)]))
+    # a blocked client whose connection another client ends with CLIENT KILL: its registrations end with it — a later push
+    # stays in the list (or goes to the next waiter), nothing is left in the registry
+    S.append(('blocked-client-killed', [('open', 1), ('open', 2), ('idof', 1), ('send', 1, B('BLPOP', 'q', 'r', 0)), ('sync',), ('kill', 2, 1), ('sync',),
+                                        ('call', 2, B('RPUSH', 'q', 'a')), ('sync',), ('call', 2, B('RPUSH', 'r', 'b')), ('sync',), ('pump', 1, 200),
+                                        ('call', 2, B('LRANGE', 'q', 0, -1)), ('call', 2, B('LRANGE', 'r', 0, -1))]))
+    S.append(('first-waiter-killed-second-served', [('open', 1), ('open', 2), ('open', 3), ('idof', 1), ('send', 1, B('BRPOP', 'q', 0)), ('sync',), ('send', 3, B('BLPOP', 'q', 0)),
+                                                    ('sync',), ('kill', 2, 1), ('sync',), ('call', 2, B('RPUSH', 'q', 'a', 'b')), ('sync',), ('pump', 3, 500), ('pump', 1, 100),
+                                                    ('call', 2, B('LRANGE', 'q', 0, -1))]))
+    S.append(('killed-while-timed-wait', [('open', 1), ('open', 2), ('idof', 1), ('send', 1, B('BLPOP', 'q', '0.3')), ('sync',), ('kill', 2, 1), ('sleep', 500),
+                                          ('call', 2, B('RPUSH', 'q', 'late')), ('sync',), ('call', 2, B('LRANGE', 'q', 0, -1))]))
     return S
 
 
 def random_schedule(rnd, n):
-    keys = ['q', 'r']
+    keys = ['q', 'r', 't']
     st = [('open', c) for c in (1, 2, 3, 4)]
     blocked = set()
     for _ in range(n):
         k = rnd.randrange(12)
         c = rnd.choice([1, 2, 3])
         if k < 3 and c not in blocked:
-            ks = rnd.sample(keys, rnd.choice([1, 1, 2]))
+            ks = rnd.sample(keys, rnd.choice([1, 1, 2, 2, 3]))
             st.append(('send', c, B(rnd.choice(['BLPOP', 'BRPOP']), *ks, rnd.choice([0, 0, '0.15', '0.3']))))
             st.append(('sync',))
             blocked.add(c)
@@ -123,6 +168,7 @@ def run_schedule(ctx, srv, name, steps, tr):
     s0.close(c0)
     tr.emit({'k': 'note', 'text': name})
     run = AsyncRun(srv, tr)
+    sids = {}
     try:
         for st in steps:
             op = st[0]
@@ -138,6 +184,20 @@ def run_schedule(ctx, srv, name, steps, tr):
             elif op == 'call':
                 if st[1] in run.cl:
                     run.call(st[1], st[2])
+            elif op == 'eval':
+                import luadsl as L
+                src = L.render(st[2])
+                if st[1] in run.cl:
+                    run.call(st[1], [b'EVAL', src, str(len(st[3])).encode()] + st[3] + st[4],
+                             extra={'prog': L.clean(st[2]), 'sha': list(L.sha1hex(src))})
+            elif op == 'idof':
+                if st[1] in run.cl:
+                    run.call(st[1], [b'CLIENT', b'ID'])
+                    r = run.recs[st[1]][-1]['r']
+                    sids[st[1]] = r[1] if r and r[0] == 'int' else None
+            elif op == 'kill':
+                if st[1] in run.cl and sids.get(st[2]) is not None:
+                    run.call(st[1], [b'CLIENT', b'KILL', b'ID', str(sids[st[2]]).encode()])
             elif op == 'pump':
                 run.pump(st[1], st[2] / 1000.0, want_all=True)
             elif op == 'sync':
